@@ -11,7 +11,8 @@ from fractions import Fraction
 import fw
 from fw import Corr, Failure, cz, cq
 
-MODEL_TARGETS = ['model/ListAlg.vo', 'model/Lift.vo']
+MODEL_TARGETS = ['model/ListAlg.vo', 'model/Lift.vo', 'gen/Gen_maps.vo', 'proofs/C15_lift_maps.vo']
+TRANSLATED = ['Gen_maps']
 SIG_F8 = 'C15:narop_function_composed_args'
 SIG_RAW = 'C15:scbuiltin_raw_selector'
 
@@ -113,6 +114,13 @@ Definition vden (x : v) : den :=
   (fix go (x : v) : den := match x with N n => DNum n | L k l => DSeq k (map go l) | VErr e => DErr e end) x.
 Definition ucode (c : v * den) : nat := if den_eqb (den_norm (vden (fst c))) (snd c) then 0%nat else 2%nat.
 '''
+
+
+# cases that use the regenerated range-mapping kernels (gen/Gen_maps.v) get their own shards, so that a refused
+# translation of those kernels only affects them
+HEADER_MAPS = HEADER.replace('Require Import SC3.lib.PyNum SC3.gen.Gen_builtins SC3.model.ListAlg SC3.model.Lift.',
+                             'Require Import SC3.lib.PyNum SC3.gen.Gen_builtins SC3.model.ListAlg SC3.model.Lift SC3.gen.Gen_maps SC3.proofs.C15_lift_maps.')
+assert HEADER_MAPS != HEADER
 
 
 def arities():
@@ -309,6 +317,8 @@ def coq_op(name, arity):
         return PY2.get(name) or 'py_' + name
     if name == 'blend':
         return '(o3d py_blend (F (1 # 2)))'
+    if name.startswith('linlin'):
+        return '(o5 py_%s)' % name          # linlin_minmax / linlin_min / linlin_max / linlin_none (gen/Gen_maps.v)
     return '(o3 py_%s)' % name
 
 
@@ -324,6 +334,14 @@ def coq_sel(name, arity, mode, fixed):
     return '(%s%d %s)' % (letter, arity, coq_op(name, arity))
 
 
+def nar_name(e):
+    """kernel name of an n-ary node: the clip mode of linlin selects the regenerated variant"""
+    if e[1] == 'linlin':
+        mode = e[5][1] if len(e) > 5 and e[5][0] != 'omit' else 'minmax'
+        return 'linlin_' + ('none' if mode is None else mode)
+    return e[1]
+
+
 def coq_expr(e, fixed=True):
     t = e[0]
     if t == 'leaf':
@@ -337,11 +355,11 @@ def coq_expr(e, fixed=True):
     if t == 'nar' and e[2] == 'meth' and top_kind(e[3]) == 'seqC':
         # ChannelList overrides clip/fold/wrap/blend: _multichannel_perform (flop over channels and arguments),
         # defaults lo=0.0, hi=1.0 / frac=0.5 filled in
-        args = list(e[4]) + [['leaf', ['num'] + nd(v)] for v in CHAN_DEFAULTS[e[1]][len(e[4]):]]
-        return '(ECNar %s %s [%s])' % (coq_sel(e[1], 3, e[2], fixed), coq_expr(e[3], fixed),
+        args = list(e[4]) + [['leaf', ['num'] + nd(v)] for v in CHAN_DEFAULTS.get(e[1], [])[len(e[4]):]]
+        return '(ECNar %s %s [%s])' % (coq_sel(nar_name(e), 3, e[2], fixed), coq_expr(e[3], fixed),
                                        '; '.join(coq_expr(i, fixed) for i in args))
     if t == 'nar':
-        return '(ENar %s %s [%s])' % (coq_sel(e[1], 3, e[2], fixed), coq_expr(e[3], fixed),
+        return '(ENar %s %s [%s])' % (coq_sel(nar_name(e), 3, e[2], fixed), coq_expr(e[3], fixed),
                                       '; '.join(coq_expr(i, fixed) for i in e[4]))
     if t == 'pseq':
         return '(EPseq [%s] %d)' % ('; '.join(coq_expr(i, fixed) for i in e[1]), e[2])
@@ -422,6 +440,8 @@ def txt_expr(e, g):
     if t == 'nar':
         a = txt_expr(e[3], g)
         args = ', '.join(txt_expr(i, g) for i in e[4])
+        if len(e) > 5 and e[5][0] != 'omit':
+            args += (', %r' if e[5][0] == 'pos' else ', clip=%r') % (e[5][1],)
         return ('%s.%s(%s)' % (a, e[1], args)) if e[2] == 'meth' else 'bi.%s(%s, %s)' % (e[1], a, args)
     if t == 'pseq':
         return 'Pseq([%s], %d)' % (', '.join(txt_expr(i, g) for i in e[1]), e[2])
@@ -518,7 +538,10 @@ def gen_cases(ctx, n_per):
                     if d is None and i >= npos and n not in kw and n not in bound:
                         kw[n] = rnd_num(rng)
             g.kw = [[n, kw[n]] for n in sorted(kw)]
-        cases.append({'k': 'expr', 'pos': [nd(v) for v in g.pos], 'kw': [[n, nd(v)] for n, v in g.kw],
+        cases.append(finish_dict(g, e, shape))
+
+    def finish_dict(g, e, shape):
+        return ({'k': 'expr', 'pos': [nd(v) for v in g.pos], 'kw': [[n, nd(v)] for n, v in g.kw],
                       'fns': [{'params': [[n, None if d is None else nd(d)] for n, d in f['params']],
                                'coef': [nd(k) for k in f['coef']], 'c': nd(f['c'])} for f in g.fns],
                       'e': e, 'shape': shape,
@@ -895,6 +918,29 @@ def gen_cases(ctx, n_per):
             c = enclose(g, c, True)
         cases.append({'k': 'expr', 'pos': [nd(g.x)], 'kw': [], 'fns': [], 'ifns': [[nd(cc), nd(k)] for cc, k in g.ifns],
                       'ins': [nd(v) for v in g.ins], 'e': c, 'shape': 'inval:%d' % ar9, 'twice': False})
+
+    # 10. n-ary operators with an OPTIONAL mode argument (linlin(x, inmin, inmax, outmin, outmax, clip='minmax'),
+    #     kernel regenerated per mode in gen/Gen_maps.v): every receiver kind, method and builtin-function form,
+    #     ChannelList METHOD form (through the per-number adapter UGenScalar.linlin), clip omitted / positional /
+    #     keyword at EVERY value, receivers below, inside and above [inmin, inmax]
+    for _ in range(n_per * 22):
+        g = Gen(rng)
+        k = rng.choice(['fn', 'str', 'pat', 'seqC', 'seqC', 'operand'])
+        recv = ['leaf', g.seq('C', 1)] if k == 'seqC' else ['leaf', g.operand_num() if k == 'operand' else g.leaf(k)]
+        inmin = rnd_num(rng)
+        width = rng.choice([1, 2, 4, 8, Fraction(1, 2), -2, -1])           # exact true division
+        span = [inmin, inmin + width]
+        outs = [rnd_num(rng), rnd_num(rng)]
+        args = [['leaf', g.num([v])] for v in span + outs]
+        mode = rng.choice(['bi', 'meth'])
+        if k == 'seqC' and mode == 'meth' and rng.random() < 0.5:
+            args[rng.choice([2, 3])] = ['leaf', g.seq(rng.choice('LC'), 1, minlen=1)]    # flop over an out bound
+        elif k in ('fn', 'str', 'pat') and rng.random() < 0.3:
+            args[rng.choice([2, 3])] = ['leaf', g.leaf(k)]
+        cval = rng.choice(['minmax', 'min', 'max', None])
+        how = rng.choice(['pos', 'pos', 'kw'] if mode == 'meth' else ['pos'])   # the builtin wrappers take no keywords
+        clip = ['omit', 'minmax'] if rng.random() < 0.15 else [how, cval]
+        cases.append(dict(finish_dict(g, ['nar', 'linlin', mode, recv, args, clip], 'optarg:%s:%s' % (k, mode)), maps=True))
     return cases
 
 
@@ -967,9 +1013,9 @@ def pinned_cases():
 
 # ---------------------------------------------------------------------------
 
-def run_codes(ctx, name, items, body, shard):
+def run_codes(ctx, name, items, body, shard, header=None):
     codes, errors = [], []
-    for rc, out, base in ctx.coq_shards(name, HEADER, items, body, shard=shard, timeout=900):
+    for rc, out, base in ctx.coq_shards(name, header or HEADER, items, body, shard=shard, timeout=900):
         n_here = min(shard, len(items) - base)
         if rc != 0:
             errors.append(out[-2500:])
@@ -994,6 +1040,8 @@ def model_value(ctx, c, fixed):
     else:
         txt = HEADER + 'Eval vm_compute in den_norm (eval_f (env_of %s %s) %s FUEL (build %s)).\n' % (
             coq_prims(c), coq_callargs(c), 'true' if fixed else 'false', coq_expr(c['e'], fixed))
+    if c.get('maps'):
+        txt = txt.replace(HEADER, HEADER_MAPS)
     rc, out = ctx.coq('lift_diag', txt, timeout=120)
     return ' '.join(out.split())[-700:] if rc == 0 else 'coq error: ' + out[-300:]
 
@@ -1010,7 +1058,8 @@ def correspond_lift(ctx):
     out = ctx.impl('c15_lift_run', {'cases': cases + ucases}, timeout=900)['out']
     eout, uout = out[:len(cases)], out[len(cases):]
 
-    plain = [i for i, k in enumerate(cases) if k.get('ins') is None]
+    plain = [i for i, k in enumerate(cases) if k.get('ins') is None and not k.get('maps')]
+    mapsi = [i for i, k in enumerate(cases) if k.get('maps')]
     withins = [i for i, k in enumerate(cases) if k.get('ins') is not None]
     items = ['(%s, %s, %s, %s, %s)' % (coq_prims(cases[i]), coq_callargs(cases[i]), coq_expr(cases[i]['e'], False),
                                        coq_expr(cases[i]['e'], True), coq_den(eout[i])) for i in plain]
@@ -1020,8 +1069,13 @@ def correspond_lift(ctx):
         '; '.join('(%s, %s)' % (cnum(cc), cnum(k)) for cc, k in cases[i]['ifns']),
         '; '.join(cnum(v) for v in cases[i]['ins']), coq_expr(cases[i]['e'], True), coq_den(eout[i])) for i in withins]
     icodes, ierrs = run_codes(ctx, 'linval', iitems, 'Eval vm_compute in map icode cases.', shard=150)
-    errs = errs + ierrs
+    mitems = ['(%s, %s, %s, %s, %s)' % (coq_prims(cases[i]), coq_callargs(cases[i]), coq_expr(cases[i]['e'], False),
+                                        coq_expr(cases[i]['e'], True), coq_den(eout[i])) for i in mapsi]
+    mcodes, merrs = run_codes(ctx, 'lmaps', mitems, 'Eval vm_compute in map code cases.', shard=150, header=HEADER_MAPS)
+    errs = errs + ierrs + merrs
     codes = [None] * len(cases)
+    for i, cd in zip(mapsi, mcodes):
+        codes[i] = cd
     for i, cd in zip(plain, pcodes):
         codes[i] = cd
     for i, cd in zip(withins, icodes):
